@@ -121,6 +121,15 @@ def run_pos(sh, ctx):
 			desc = dict(id_attr=id_attr, order=ok, sig_order=order, n=n, n_extra=len(w.extra), file_ids=[str(x) for x in w.last_file_ids][:30], dtype=str(dt))
 			ctx.case(('pos', sh['sub'], wi, id_attr, order), nontrivial=n >= 2, sample=desc if wi == 0 and id_attr in ('key', 'ncbi_id') else None)
 			ctx.count(f'id_attr:{id_attr}'); ctx.count(f'order:{ok}'); ctx.count('with_unrelated_signatures' if w.extra else 'without_unrelated_signatures')
+			if n > 1 and rng.random() < 0.25:
+				dbad = ctx.workdir / f'w{wi}_{id_attr}_bad'
+				w.write_db(dbad, sig_order=order, id_attr=id_attr, drop_sig_of=rng.randrange(n))
+				try:
+					bad = ReferenceDatabase.load_from_dir(dbad)
+					bad.signatures.close(); bad.session.close()
+				except Exception:
+					ctx.count('failing_loads_interleaved')
+				shutil.rmtree(dbad, ignore_errors=True)
 			try:
 				db = ReferenceDatabase.load_from_dir(d)
 			except Exception as e:
